@@ -163,6 +163,32 @@ def build_pool():
 
         return call
 
+    def damaged(fn, fmt):
+        """A corpus file with one section removed (WFX: the required <Number of Electrons> section; others: three lines
+        one third into the file): whatever the loader makes of it alone, it must make of it after any history."""
+        def call(work):
+            from iodata import load_one
+            from mc.core import CORPUS
+
+            lines = (CORPUS / fn).read_text().splitlines(keepends=True)
+            if fn.endswith(".wfx"):
+                i = next(k for k, ln in enumerate(lines) if ln.strip() == "<Number of Electrons>")
+                j = next(k for k, ln in enumerate(lines) if ln.strip() == "</Number of Electrons>")
+                lines = lines[:i] + lines[j + 1 :]
+            else:
+                i = len(lines) // 3
+                lines = lines[:i] + lines[i + 3 :]
+            p = os.path.join(work, "damaged_" + fn)
+            with open(p, "w") as fh:
+                fh.write("".join(lines))
+            return digest_obj(load_one(p, fmt=fmt))
+
+        return call
+
+    for fn, fmt in (("h2_ub3lyp_ccpvtz.wfx", None), ("h2o_sto3g.wfn", None), ("h2o_sto3g.fchk", None), ("h2o.molden.input", None), ("h2_sto3g.mkl", None),
+                    ("ch3_hf_sto3g_fchk_multiwfn3.7.mwfn", None), ("atom_om2.cp2k.out", None), ("water_hf_ccpvtz_freq_qchem.out", "qchemlog"), ("water_single.pdb", None),
+                    ("water.mol2", None), ("example.sdf", None), ("cubegen_h2o_5points.cube", None)):
+        pool.append((f"damaged:{fn}", damaged(fn, fmt)))
     for kind in ("missing-attribute", "unknown-format", "unknown-program", "ghost:xyz", "ghost:pdb", "ghost:sdf", "ghost:mol2", "ghost:cube", "ghost:poscar", "ghost-wfx", "truncated-file"):
         pool.append((f"failing:{kind}", failing(kind)))
     return pool
